@@ -27,7 +27,7 @@ def run(ctx):
         "modelled: Create/Update/UpdateStatus/Get/List/Watch of the five stores, Atomix map/indexed map (versions, IfVersion, Append, equal-bytes no-op), "
         "event loop / watcher goroutine / consumer with unbuffered channels; trusted: linearizability of Atomix itself, Go channel fairness, a clock that "
         "differs between two store calls (Updated = time.Now()), PrunePathMap on unrelated paths = identity (pruning belongs to C03)",
-        "C15_watch_latest is PARTIAL: exhaustive over all interleavings up to depth 6-8 inside Coq, not an unbounded induction"]
+        "watch half: unbounded (C15_watch_latest, C15_watch_never_loses, C15_cancel_isolated) relative to the abstractions of Model/Watch.v listed in the manifest note; still partial: refused configuration writes and path values (F-08 / F-08b, open)"]
     ctx.notes = ["versions of the Atomix test cluster are comparable per record only (per-partition numbering)",
                  "v3 transaction List returns after the first target's log (modelled as such; not part of the property)"]
 
